@@ -16,8 +16,8 @@ from bromelia.base import DiameterMessage, DiameterHeader, DiameterAnswer
 
 PROPERTY = "C17"
 LEVEL = "proof"
-CHECKER_CMD = "bin/check C17  (vf/ast2smt.py -> /usr/bin/z3 -smt2 and cvc5 --incremental; CrossHair for the object glue)"
-TRUSTED = ["z3 4.8.12 binary", "cvc5 1.0 binary", "vf/ast2smt.py translator (validated on every run against the "
+CHECKER_CMD = "bin/check C17  (vf/ast2smt.py -> .venv/bin/z3 -smt2 and cvc5 --incremental; CrossHair for the object glue)"
+TRUSTED = ["z3 5.1.0 CLI (z3-solver wheel in /verif/.venv)", "cvc5 1.0 binary", "vf/ast2smt.py translator (validated on every run against the "
            "real functions on all library result-code constants and boundary values)",
            "bit-decomposition lemma P1 (x & m as div/mod sum)", "CrossHair 0.0.110 + z3 5.1 for the E1 queries",
            "stub in E2 object obligations: answer.has_avp('result_code_avp') == True and "
